@@ -98,7 +98,10 @@ def _follow_result(fb, body, local, depth=0):
                 # _b = branch(x); discr(_b) ; switch 0 -> Continue, 1 -> Break
                 out.extend(_follow_discr(fb, body, d["l"], ok_value=0))
             elif PASS_THROUGH.search(p) and item["a"] and item["a"][0].get("k") in ("copy", "move") and item["a"][0]["pl"]["l"] == local:
-                out.extend(_follow_result(fb, body, d["l"], depth + 1))
+                if d["l"] == 0 and not d.get("p"):
+                    out.append(("returned", bb))
+                else:
+                    out.extend(_follow_result(fb, body, d["l"], depth + 1))
             elif re.search(r"(Result::<T, E>::(is_ok|is_err)|Option::<T>::(is_some|is_none))$", p):
                 pos = p.endswith("is_ok") or p.endswith("is_some")
                 out.extend(_follow_bool(fb, body, d["l"], positive=pos))
@@ -242,11 +245,18 @@ def must_pass(fb, ctx, body, call_regex, rule, instance, key, sinks=None, what="
         ctx.fail(rule, instance, key, f"`{body['path']}` no longer calls /{call_regex}/", where)
         return False
     edges = []
+    returned_blocks = set()
     for c in cs:
         e = success_edge(fb, body, c)
         if e:
             edges.append((c, e))
-    if not edges:
+        # `f(..)` / `f(..).map_err(..)` as the tail expression: the callee's Result *is* this function's result
+        for u in result_branches(fb, body, c):
+            if u[0] == "returned":
+                returned_blocks.add(u[1])
+        if c.dest is not None and c.dest["l"] == 0 and not c.dest.get("p"):
+            returned_blocks.add(c.bb)
+    if not edges and not returned_blocks:
         c = cs[0]
         ctx.fail(rule, instance, key, f"result of `{c.callee}` is not checked by a branch in `{body['path']}`", f"{body['file']}:{c.ln}")
         return False
@@ -255,13 +265,15 @@ def must_pass(fb, ctx, body, call_regex, rule, instance, key, sinks=None, what="
         raise CheckerError(f"no {what} found in {body['path']}")
     bad = []
     for t in targets:
+        if t in returned_blocks:
+            continue
         if not any(S is not None and dominates(body, S, t) and _edge_only(body, D, S) for (_, (D, S, errs)) in edges):
             bad.append(t)
     if bad:
         ln = term(body, bad[0]).get("ln") or body["line"]
         ctx.fail(rule, instance, key, f"a {what} of `{body['path']}` (bb{bad[0]}) is reachable without passing the success edge of `{short(cs[0].callee)}`", f"{body['file']}:{ln}")
         return False
-    ctx.ok(rule, instance, f"{body['file']}:{cs[0].ln}", f"{len(targets)} {what}(s) dominated by the success edge of {short(cs[0].callee)}")
+    ctx.ok(rule, instance, f"{body['file']}:{cs[0].ln}", f"{len(targets)} {what}(s) dominated by the success edge of {short(cs[0].callee)}" + (" / its Result is returned as is" if returned_blocks else ""))
     return True
 
 
@@ -284,6 +296,29 @@ def result_used(fb, ctx, body, call, rule, instance, key):
 
 
 # ----------------------------------------------------------------------------------------------- WIRE (may-depend)
+def _named_proj(pl):
+    """Only named struct fields extend an access path; tuple positions, enum downcasts, derefs and indexing are collection /
+    wrapper element accesses and are elided (`self.blocks[*].next_key` reads as `arg1.blocks.next_key`)."""
+    return "".join(p for p in (pl.get("p") or []) if p.startswith(".") and not p[1:].isdigit())
+
+
+def _enum_mapping_switch(body, t):
+    """switch on the discriminant of a plain (non Option/Result/ControlFlow) enum value: `match alg { A => X, B => Y }`"""
+    d = t["d"]
+    if d.get("k") not in ("copy", "move") or d["pl"].get("p"):
+        return False
+    for blk in body["blocks"]:
+        for st in blk["s"]:
+            if st["d"]["l"] == d["pl"]["l"] and not st["d"].get("p") and st["r"].get("k") == "discr":
+                pl = st["r"]["pl"]
+                ty = body["locals"][pl["l"]]
+                if any(x != "*" for x in (pl.get("p") or [])):
+                    return False
+                ty = ty.lstrip("&").replace("mut ", "")
+                return not ty.startswith(("std::option::Option<", "std::result::Result<", "std::ops::ControlFlow<"))
+    return False
+
+
 def deps(fb, body):
     """Flow-insensitive may-depend sets: local -> set of leaves. Leaves: `arg<i>.path`, `const:<v>`, `call:<callee>`.
     A call makes its destination depend on all arguments and the callee; arguments passed as `&mut x` make x depend on the
@@ -291,14 +326,13 @@ def deps(fb, body):
     if "_deps" in body:
         return body["_deps"]
     dep = defaultdict(set)
-    names = {n["pl"]["l"]: n["n"] for n in body.get("names", []) if not n["pl"].get("p") and n.get("arg")}
     for i in range(1, body["argc"] + 1):
-        dep[i].add(names.get(i, f"arg{i}"))
+        dep[i].add(f"arg{i}")  # positional names: renaming a parameter must not matter
     res = Resolver(body)
 
     def place_deps(pl):
         l = pl["l"]
-        proj = "".join(p for p in (pl.get("p") or []) if p != "*" and not p.startswith("["))
+        proj = _named_proj(pl)
         out = set()
         for leaf in dep[l]:
             if proj and not leaf.startswith(("const:", "call:")) and leaf.count(".") < 5 and not leaf.endswith(proj):
@@ -327,6 +361,31 @@ def deps(fb, body):
             r = s["r"]
             if r.get("k") == "ref" and r.get("mut") and not s["d"].get("p"):
                 mutref[s["d"]["l"]] = r["pl"]["l"]
+    # pointer provenance: `p2 = p1 as *T` / `p2 = copy p1.field` - a store through *p2 also changes what p1 points to
+    alias_of = defaultdict(set)
+    for blk in body["blocks"]:
+        for s in blk["s"]:
+            r = s["r"]
+            if s["d"].get("p"):
+                continue
+            src = None
+            if r.get("k") in ("cast", "use") and r["op"].get("k") in ("copy", "move"):
+                src = r["op"]["pl"]["l"]
+            elif r.get("k") in ("ref", "rawptr") and "*" in (r["pl"].get("p") or []):
+                src = r["pl"]["l"]
+            if src is not None and ("*" in body["locals"][s["d"]["l"]] or body["locals"][s["d"]["l"]].startswith(("&", "std::boxed::Box", "std::ptr::"))):
+                alias_of[s["d"]["l"]].add(src)
+
+    def ancestors(l):
+        out, st = set(), [l]
+        while st:
+            x = st.pop()
+            for a in alias_of.get(x, ()):
+                if a not in out:
+                    out.add(a)
+                    st.append(a)
+        return out
+
     changed = True
     rounds = 0
     while changed and rounds < 30:
@@ -352,7 +411,33 @@ def deps(fb, body):
                 if not new <= dep[d]:
                     dep[d] |= new
                     changed = True
+                if "*" in (s["d"].get("p") or []):
+                    for a in ancestors(d):
+                        if not new <= dep[a]:
+                            dep[a] |= new
+                            changed = True
             t = blk.get("t") or {}
+            if t.get("k") == "switch":
+                # implicit flow: values assigned in the arms of a switch depend on what was switched on
+                cd = op_deps(t["d"]) if _enum_mapping_switch(body, t) else set()
+                if cd:
+                    g = cfg(body)
+                    me = body["blocks"].index(blk)
+                    for sx in set(g["succ"][me]):
+                        if g["pred"][sx] != [me]:
+                            continue
+                        sb = body["blocks"][sx]
+                        for st in sb["s"]:
+                            dl = st["d"]["l"]
+                            if not cd <= dep[dl]:
+                                dep[dl] |= cd
+                                changed = True
+                        tt = sb.get("t") or {}
+                        if tt.get("k") == "call" and tt.get("d") is not None:
+                            dl = tt["d"]["l"]
+                            if not cd <= dep[dl]:
+                                dep[dl] |= cd
+                                changed = True
             if t.get("k") == "call":
                 alld = set()
                 per = []
@@ -387,7 +472,7 @@ def operand_leaves(fb, body, op):
     k = op.get("k")
     if k in ("copy", "move"):
         pl = op["pl"]
-        proj = "".join(p for p in (pl.get("p") or []) if p != "*" and not p.startswith("["))
+        proj = _named_proj(pl)
         out = set()
         for leaf in d[pl["l"]]:
             out.add(leaf + proj if proj and not leaf.startswith(("const:", "call:")) and leaf.count(".") < 5 and not leaf.endswith(proj) else leaf)
@@ -437,3 +522,90 @@ def agg_field(s, name):
     if name in fs:
         return rv["ops"][fs.index(name)]
     return None
+
+
+# ----------------------------------------------------------------------------------------------- flow-sensitive variant
+def reaching_defs(body, local, bb):
+    """Definitions (block, kind, item) of `local` that can reach the *entry* of block bb (or a point inside bb before its
+    terminator when the def is in bb itself) without an intervening full redefinition."""
+    g = cfg(body)
+    defs = []
+    for i, blk in enumerate(body["blocks"]):
+        for j, st in enumerate(blk["s"]):
+            if st["d"]["l"] == local and not st["d"].get("p"):
+                defs.append((i, j, "assign", st))
+        t = blk.get("t") or {}
+        if t.get("k") == "call" and t.get("d") is not None and t["d"]["l"] == local and not t["d"].get("p"):
+            defs.append((i, 10 ** 6, "call", t))
+    def_blocks = {}
+    for d in defs:
+        def_blocks.setdefault(d[0], []).append(d)
+    out = []
+    # last def inside bb itself wins
+    if bb in def_blocks:
+        inside = [d for d in def_blocks[bb] if d[2] == "assign"]
+        if inside:
+            return [max(inside, key=lambda d: d[1])]
+    # backwards search from bb's predecessors, stopping at blocks that define the local
+    seen, st = set(), list(g["pred"][bb])
+    while st:
+        x = st.pop()
+        if x in seen:
+            continue
+        seen.add(x)
+        if x in def_blocks:
+            out.append(max(def_blocks[x], key=lambda d: d[1]))
+            continue
+        st.extend(g["pred"][x])
+    return out
+
+
+def leaves_at(fb, body, op, bb, depth=0):
+    """Like operand_leaves but multi-definition locals are resolved to the definitions that reach block bb."""
+    k = op.get("k")
+    if k == "const":
+        v = op.get("v", "")
+        return {"const:" + v} if v.startswith(('b"', '"')) else set()
+    if k not in ("copy", "move"):
+        return set()
+    pl = op["pl"]
+    l = pl["l"]
+    proj = _named_proj(pl)
+
+    def ext(leaves):
+        return {x + proj if proj and x.startswith("arg") else x for x in leaves}
+
+    if 1 <= l <= body["argc"]:
+        # parameters may be reassigned, but only through explicit assignments
+        rd = reaching_defs(body, l, bb)
+        if not rd:
+            return ext({f"arg{l}"})
+    if depth > 12:
+        return ext(operand_leaves(fb, body, {"k": "copy", "pl": {"l": l}}))
+    rd = reaching_defs(body, l, bb)
+    if not rd:
+        return ext(operand_leaves(fb, body, {"k": "copy", "pl": {"l": l}}))
+    out = set()
+    for (i, j, kind, item) in rd:
+        if kind == "call":
+            f = item["f"]
+            out.add("call:" + short(f["fn"].get("rpath", f["fn"]["path"])) if f.get("k") == "fn" else "call:<indirect>")
+            for a in item["a"]:
+                out |= leaves_at(fb, body, a, i, depth + 1)
+        else:
+            r = item["r"]
+            rk = r.get("k")
+            ops = []
+            if rk in ("use", "cast", "repeat"):
+                ops = [r["op"]]
+            elif rk in ("ref", "rawptr", "discr"):
+                ops = [{"k": "copy", "pl": r["pl"]}]
+            elif rk == "binop":
+                ops = [r["a"], r["b"]]
+            elif rk == "unop":
+                ops = [r["a"]]
+            elif rk == "agg":
+                ops = r["ops"]
+            for o in ops:
+                out |= leaves_at(fb, body, o, i, depth + 1)
+    return ext(out)
